@@ -96,14 +96,6 @@ impl GenericSingleObjectWriter {
     }
 }
 
-#[cfg(feature = "verif-hooks")]
-impl GenericSingleObjectWriter {
-    /// Verification hook: the internal buffer (the header between calls).
-    pub fn verif_buffer(&self) -> &[u8] {
-        &self.buffer
-    }
-}
-
 /// Writer that encodes messages according to the single object encoding v1 spec
 #[derive(Builder)]
 pub struct SpecificSingleObjectWriter<T>
